@@ -18,9 +18,9 @@ from vlib import *
 import histories, qsengine
 
 
-def gen_bounce_history(rng, idx, thorough):
+def gen_bounce_history(rng, idx, thorough, kind=None):
     nmsg = rng.choice([1, 1, 2])
-    cfgk = rng.choice(["default", "default", "custom", "vdom"])
+    cfgk = rng.choice(["default", "default", "custom", "vdom"]) if kind is None else kind
     controls, dbto, pfx = {}, b"postmaster@test.example", b""
     if cfgk == "custom":
         controls = {"bouncefrom": "MAILER.X", "bouncehost": "bh.test", "doublebounceto": "dbl.admin", "doublebouncehost": "dbh.test"}
@@ -28,6 +28,12 @@ def gen_bounce_history(rng, idx, thorough):
     elif cfgk == "vdom":
         controls = {"virtualdomains": "virt.test:vpfx\nuser@uv.test:upfx\n"}
         pfx = b"vpfx"
+    elif cfgk == "vwild":          # a dot-suffix entry
+        controls = {"virtualdomains": ".sub.test:spfx\n"}
+        pfx = b"spfx"
+    elif cfgk == "vcatch":         # the catch-all entry: every address that is not local is handed to the local user cpfx
+        controls = {"virtualdomains": ":cpfx\n"}
+        pfx = b"cpfx"
     messages, outcomes = [], {}
     rid = 0
     for m in range(nmsg):
@@ -35,15 +41,17 @@ def gen_bounce_history(rng, idx, thorough):
         rcpts = []
         for _ in range(nr):
             rid += 1
-            dom = rng.choice(["local.test", "remote.test", "remote.test"] + (["virt.test"] if cfgk == "vdom" else []))
+            dom = rng.choice(["local.test", "remote.test", "remote.test"] + (["virt.test"] if cfgk == "vdom" else []) + (["x.sub.test", "y.x.sub.test"] if cfgk == "vwild" else []))
             a = "b%dr%d@%s" % (idx, rid, dom)
             rcpts.append(a.encode())
-            key = ("vpfx-" + a) if dom == "virt.test" else a
+            key = ("vpfx-" + a) if dom == "virt.test" else ("spfx-" + a) if dom.endswith(".sub.test") else ("cpfx-" + a) if (cfgk == "vcatch" and dom != "local.test") else a
             outcomes[key] = rng.choice(["D", "D", "D", "K", "ZD", "GD", "Z" * 12])
         sender = rng.choice([b"bs%d@origin.test" % idx, b"bs%d@origin.test" % idx, b"", b"#@[]", b"list%d-owner-@lists.test-@[]" % idx])
         messages.append({"body": b"Subject: b%d\n\noriginal body %d\n" % (idx, m), "sender": sender, "rcpts": rcpts})
     # what happens to the bounces themselves
     for s in ("bs%d@origin.test" % idx, "list%d-owner-@lists.test" % idx, dbto.decode()):
+        if cfgk == "vcatch":
+            s = "cpfx-" + s          # (as delivered; the envelopes of the notices carry the plain addresses)
         outcomes[s] = rng.choice(["K", "K", "D", "D", "ZK", "ZD"])
     script = []
     for m in range(nmsg):
@@ -53,7 +61,7 @@ def gen_bounce_history(rng, idx, thorough):
         script.append(("answer", rng.choice(["fifo", "lifo", "random"])))
         if rng.random() < 0.6:
             script.append(("nextdue", 0))
-    return {"id": "bounce%d" % idx, "seed": rng.randrange(1 << 30), "messages": messages, "outcomes": outcomes, "script": script, "strict": 1 if cfgk != "vdom" else 0,
+    return {"id": "bounce%d" % idx, "seed": rng.randrange(1 << 30), "messages": messages, "outcomes": outcomes, "script": script, "strict": 1 if cfgk in ("default", "custom") else 0,
             "conc": (10, 20), "announce": (120, 120), "hostile": 1, "controls": controls, "dbto": dbto, "pfx": pfx, "lifetime": lifetime, "drain_rounds": 60}
 
 
@@ -95,6 +103,7 @@ def main():
         hists = [h]
     else:
         hists = [gen_bounce_history(ck.rng, i, thorough) for i in range(400 if thorough else 110)]
+        hists += [gen_bounce_history(ck.rng, 1000 + i, thorough, kind=k) for i, k in enumerate(["vwild", "vcatch", "vdom"] * (10 if thorough else 3))]
     runs = qsengine.run_histories(ck, tree, hists)
     bad, vres = qsengine.judge(ck, runs)
     ck.add_tlc("QSendTrace", vres)
